@@ -294,6 +294,39 @@ def execute(args):
         ev.append({'e': 'Parse', 'run': nrun, 'd': iid(d0)})
         guarded(lambda: dmain.run_dassh(inp, dict(ARGS)), 'again')
         finish(d, alltp, single=(ntp == 1))
+        # ---- the same input in a fresh interpreter with another string
+        # hash seed (what a second execution from the command line is): the
+        # same model, results and files
+        if opts.get('otherhash', True):
+            import subprocess
+            import sys as _sys
+            for hseed in opts.get('hashseeds', ('4242', '97')):
+                d, path = begin('otherhash' + hseed, 'H' + hseed)
+                ev.append({'e': 'Parse', 'run': nrun, 'd': iid(d0)})
+                code = (
+                    "import sys\n"
+                    "sys.path.insert(0, %r)\n"
+                    "from harness import common, runctl\n"
+                    "dassh = common.import_dassh()\n"
+                    "import dassh.__main__ as dmain\n"
+                    "runctl.install(dassh)\n"
+                    "runctl._CTX.update(log=%r, run=%d, tpmap=None, root=%r,"
+                    " seq=0, base=%r)\n"
+                    "inp = dassh.DASSH_Input(%r)\n"
+                    "dmain.run_dassh(inp, dict(runctl.ARGS))\n"
+                ) % (str(common.VERIF), _CTX['log'], nrun, str(root), d, path)
+
+                def fresh(code=code, hseed=hseed):
+                    p_ = subprocess.run(
+                        [_sys.executable, '-c', code], capture_output=True,
+                        text=True, timeout=900,
+                        env=dict(os.environ, PYTHONHASHSEED=hseed,
+                                 DASSH_REPO=str(common.REPO)))
+                    if p_.returncode != 0:
+                        raise RuntimeError('fresh interpreter failed: '
+                                           + p_.stderr[-300:])
+                guarded(fresh, 'otherhash')
+                finish(d, alltp, single=(ntp == 1))
         # ---- run 3: pool
         if ntp > 1 and opts.get('pool', True):
             v = json.loads(json.dumps(case))
